@@ -364,7 +364,7 @@ def parse_results(out_json, harnesses, logfile):
             if status in ("Success", "Unreachable"):
                 continue
             if status == "Failure":
-                m = re.search(r"VERIF:(C\d+:[A-Za-z0-9_.-]+)", desc)
+                m = re.search(r"VERIF:(C\d+(?:\+C\d+)*:[A-Za-z0-9_.-]+)", desc)
                 if m:
                     r.failed_verif.append((m.group(1), desc))
                 elif "VERIF-ENV" in desc:
